@@ -63,11 +63,31 @@ def per_case(case, rd, outs, r):
     r.count('ops_remote', sum(1 for o in case.ops if o.startswith('rem')))
     r.count('ops_local', sum(1 for o in case.ops if o.startswith('ev')))
     prev_tab = []
+    told_finished = set()      # ids this instance was told (or itself reported) are finished
     for k, (op, out) in enumerate(zip(case.ops, outs)):
         if out == 'X':
             r.violations.append(Violation('exception-escaped', f'exception escaped at {op[:60]}', {**case.to_json(), 'failing_step': k}))
             return
         tab = [x.rstrip('!').split('|') for x in _parse_table(out)]
+        # a run the instance has seen finish — also one finished by a peer under a foreign id — must not be active
+        # again (with the memory enabled and large): it would block the singleton from ever restarting
+        if case.cache >= 1000:
+            if op.startswith('rem '):
+                cur_l = None
+                for x in op.split()[1:]:
+                    if x in ('C', 'H', 'U'):
+                        cur_l = x
+                    elif cur_l in ('C', 'H'):
+                        told_finished.add(x.split('|')[0])
+            for part in ('C[', 'H['):
+                i = out.index(part) + 2
+                told_finished |= {y.split('|')[0] for y in out[i:out.index(']', i)].split()}
+            back = [x for x in tab if x[0] in told_finished and (x[1], x[2]) in {(ph, p['name']) for ph, p in singles}]
+            if back:
+                r.violations.append(Violation('finished-singleton-run-active',
+                                              f"run {back[0][0]} of singleton {back[0][1]}/{back[0][2]} finished (locally or at a peer) and is active again after {op[:70]}: the pattern cannot restart",
+                                              {**case.to_json(), 'failing_step': k}))
+                return
         for ph, p in singles:
             n = sum(1 for x in tab if x[1] == ph and x[2] == p['name'])
             if n > 1:
